@@ -288,6 +288,10 @@ class Ocp(Stage):
 
     def save(self,name):
         self._untranscribe()
+        # The augmented copies made for the previous transcription are rebuilt on demand. They may still refer
+        # to a method object that was replaced since (ocp.method(...) after a solve), with its Opti
+        for s in self.iter_stages(include_self=True):
+            s._var_augmented = None
         import pickle
         with rockit_pickle_context():
             pickle.dump(self,open(name,"wb"))
